@@ -209,3 +209,24 @@ Theorem C05_blank_and_near_are_wrong : forall rg s,
   storage_secret_ok rg s = false /\ secret_ok rg s = false /\ cc_secret_ok rg s = false /\ nonempty s = Some s.
 Proof. exact blank_and_near_are_wrong. Qed.
 Print Assumptions C05_blank_and_near_are_wrong.
+
+(* Round 6. [MOther]: Client.AuthMethod() returns a value that is none of the library's four
+   constants (unset, client_secret_jwt, tls_client_auth, an unknown string, a case variant) for
+   a client with a stored secret; read as the default client_secret_basic: no tokens without
+   the exact secret - in particular not for a bare client_id on the device_code grant. *)
+Theorem C05_other_method_needs_secret : forall r c rg p g pl pv,
+  r_meth rg = MOther -> presents_right_secret p = false -> g <> GBearer ->
+  success (model (mkInput r EToken c rg p g pl pv)) = false.
+Proof. exact other_method_needs_secret. Qed.
+Print Assumptions C05_other_method_needs_secret.
+
+(* [c_jp c = false]: the provider object handed to NewLegacyServer lacks the optional method
+   JWTProfileVerifier (the only optional method the LegacyServer type-asserts on its provider).
+   Then a request that carries a client assertion - valid, wrong or junk, with or without
+   client_id - obtains nothing on introspection and on the token endpoint: the assertion is never
+   dropped in favour of a check of the (absent, hence empty) secret. *)
+Theorem C05_bare_provider_assertion_refused : forall e c rg p g pl pv,
+  c_jp c = false -> carries_assertion p = true -> e = EIntrospect \/ e = EToken ->
+  success (model (mkInput RLegacy e c rg p g pl pv)) = false.
+Proof. exact bare_provider_assertion_refused. Qed.
+Print Assumptions C05_bare_provider_assertion_refused.
